@@ -450,7 +450,27 @@ def rule_compact(ctx, res):
     res.touch(ib)
     isym = Sym(ib)
     isym.run()
-    oki = any(find_calls(p.ret, 'try_into') for p in isym.complete_paths())
+    # every Ok result is try_into::<[u8; 20]>() of the WHOLE decoded byte string (a conversion of a prefix / sub-slice would
+    # accept longer strings)
+    oki = False
+    n_ok = 0
+    for p in isym.complete_paths():
+        if agg_variant(p.ret) != 'Ok':
+            continue
+        n_ok += 1
+        ti = find_calls(p.ret, 'try_into')
+        good = False
+        if len(ti) == 1:
+            x = strip_transparent(ti[0][2][0])
+            while isinstance(x, tuple) and x and x[0] == 'call' and x[1].split('::')[-1] in ('into_vec', 'as_slice', 'as_ref', 'deref', 'to_vec', 'into_boxed_slice', 'as_bytes', 'borrow'):
+                x = strip_transparent(x[2][0])
+            # .. which is the successfully deserialized ByteBuf / byte slice itself
+            good = (isinstance(x, tuple) and x[0] == 'field' and x[2] == '0' and isinstance(x[1], tuple) and x[1][0] == 'downcast' and bool(find_calls(x, '::deserialize'))
+                    and not find_calls(x, '::get') and not find_calls(x, '::index') and not find_calls(x, 'split') and not find_calls(x, '::take') and not find_calls(x, 'first_chunk'))
+        if not good:
+            oki = False
+            break
+        oki = True
     adt = ctx.f.adts.get('info_hash::InfoHash')
     fty = adt['variants'][0]['fields'][0].get('ty_norm') if adt else None
     res.check(oki and fty == '[u8; 20]', 'TYPE', ib.path, 'an id is a byte string converted into [u8; 20]; other lengths are rejected', detail=str(fty))
